@@ -147,9 +147,14 @@ fn c19_delta_header_alloc_bounded() {
     kani::assume(bytes[0] & 0x80 == 0 && bytes[1] & 0x80 == 0 && bytes[1] > 3);
     kani::cover!(bytes[1] == 127);
     let r = DeltaBinaryPackedValueDecoder::<i32>::try_new(ReadCursor::from_slice(&bytes));
-    let is_err = r.is_err();
+    // the table has one byte per miniblock of a block that follows the header: it must fit in
+    // the 5-byte page (an error, or no table at all when the page announces no block)
+    let bounded = match &r {
+        Ok(d) => d.mini_block_bit_widths.len() <= 5,
+        Err(_) => true,
+    };
     core::mem::forget(r);
-    assert!(is_err, "a miniblock count that cannot fit in the page is an error");
+    assert!(bounded, "the bit-width table is never sized beyond what the page can hold");
 }
 
 // (A variant of the resume obligation through try_new over page bytes - independent of the decoder's
